@@ -5,17 +5,22 @@ operation on stdout.  The first word of a line selects the core.
 specification's.
 -/
 import Mqtt.Driver.AckQ
+import Mqtt.Driver.Topics
 
 namespace Mqtt.Driver
 
 structure DState where
   ackq : AckQ.St := AckQ.St.init
+  topics : Topics.St := Topics.St.init
 
 def dispatch (st : DState) (line : String) : DState × String × String :=
   match words line with
   | "ackq" :: rest =>
     let (a, m, s) := AckQ.handle st.ackq rest
     ({ st with ackq := a }, m, s)
+  | "topics" :: rest =>
+    let (a, m, s) := Topics.handle st.topics rest
+    ({ st with topics := a }, m, s)
   | [] => (st, "", "")
   | _ => (st, "bad-core", "bad-core")
 
